@@ -52,7 +52,7 @@ mod e2e {
     fn new_repo(comp: i64, dpack: u64, tpack: u64, chunk: u64) -> anyhow::Result<(Arc<InMemoryBackend>, Repo)> {
         let be = Arc::new(InMemoryBackend::new());
         let bes = RepositoryBackends::new(be.clone(), None);
-        let repo = Repository::new(&RepositoryOptions::default(), &bes)?;
+        let repo = Repository::new(&RepositoryOptions::default().no_cache(true), &bes)?;
         let mut co = ConfigOptions::default()
             .set_chunker(Chunker::FixedSize)
             .set_chunk_size(bytesize::ByteSize(chunk))
@@ -801,7 +801,7 @@ fn failupload_case(line: &str) -> String {
             pack_uploads: AtomicUsize::new(0),
         });
         let bes = RepositoryBackends::new(be.clone(), None);
-        let opts = RepositoryOptions::default();
+        let opts = RepositoryOptions::default().no_cache(true);
         let creds = Credentials::Masterkey(MasterKey::new());
         let repo = Repository::new(&opts, &bes)?.init(
             &creds,
